@@ -40,6 +40,25 @@ Proof. exact (bilinear_rejects x y A ia). Qed.
 Theorem C18_pad_rejects (x : tt R) k v hd_ pds : (length x <? length pds)%nat = true ->
   apply_op OPad [VT x; VS k v] (hd_ :: pds) = VErr EArgs.
 Proof. exact (pad_rejects x k v hd_ pds). Qed.
+Theorem C18_cat_rejects (x : tt R) (l : list (tt R)) dim :
+  (dim <? length x)%nat && forallb (fun t => Nat.eqb (length t) (length x) && eqb_ln (upd dim 0 (shape t)) (upd dim 0 (shape x))) l = false ->
+  apply_op OCat (VT x :: map (@VT R) l) [[dim]] = VErr EArgs.
+Proof. exact (cat_rejects x l dim). Qed.
+Theorem C18_pad_ttm_rejects (x : ttm R) k v hd_ pds : (length x <? length pds)%nat = true ->
+  apply_op OPad [VM x; VS k v] (hd_ :: pds) = VErr EArgs.
+Proof. exact (pad_ttm_rejects x k v hd_ pds). Qed.
+Theorem C18_transpose_tt_rejects (x : tt R) ia : apply_op OTr [VT x] ia = VErr EArgs.
+Proof. exact (transpose_tt_rejects x ia). Qed.
+Theorem C18_mul_tensor_rejects (x : tt R) (t : dense R) ia : dshape t <> [] ->
+  apply_op OMul [VT x; VD t] ia = VErr EArgs /\ apply_op ORMul [VT x; VD t] ia = VErr EArgs.
+Proof. exact (mul_tensor_rejects x t ia). Qed.
+Theorem C18_dot_ttm_rejects (A : ttm R) (v : val R) ia :
+  apply_op ODot [VM A; v] ia = VErr ENotImpl /\ (forall x : tt R, apply_op ODot [VT x; VM A] ia = VErr ENotImpl).
+Proof. exact (dot_ttm_rejects A v ia). Qed.
+Theorem C18_getitem_rejects (x : tt R) ix :
+  ((1 <? length (filter is_ell ix))%nat = true -> getitem_tuple x ix = GE ENotImpl) /\
+  (forall c1 c2 t it, x = c1 :: c2 :: t -> it <> IEll -> getitem_single x it = GE EArgs).
+Proof. exact (getitem_rejects x ix). Qed.
 End C18.
 
 Theorem C18_ctor_rejects cs :
@@ -64,5 +83,11 @@ Print Assumptions C18_dot_rejects.
 Print Assumptions C18_dot_axis_rejects.
 Print Assumptions C18_bilinear_rejects.
 Print Assumptions C18_pad_rejects.
+Print Assumptions C18_cat_rejects.
+Print Assumptions C18_pad_ttm_rejects.
+Print Assumptions C18_transpose_tt_rejects.
+Print Assumptions C18_mul_tensor_rejects.
+Print Assumptions C18_dot_ttm_rejects.
+Print Assumptions C18_getitem_rejects.
 Print Assumptions C18_ctor_rejects.
 Print Assumptions C18_ctor_accepts_only_wf.
